@@ -6,7 +6,7 @@ package bitmap
 func Slice(words []uint64, from, to int32) []uint64 {
 
 	l := ((to - from) + 63) & (^63)
-	r := make([]uint64, l)
+	r := make([]uint64, l>>6)
 
 	for i := from; i < to; i++ {
 		if words[i>>6]&(1<<uint(i&63)) != 0 {
